@@ -14,7 +14,7 @@ RULE = ('2-5 real threads make the FIRST request of a fresh SingletonDecorator o
         '(seeded random and PCT schedules); all returned objects must be the same object and later requests must return it too. '
         'distinct_nontrivial = distinct context-switch sequences in which >= 2 threads were inside __call__ at the same time')
 CASES = {'quick': 1500, 'thorough': 100000}
-BUDGET = {'quick': 40, 'thorough': 900}
+BUDGET = {'quick': 40, 'thorough': 300}
 REQUIRE = {'runs': 800, 'overlapping_first_requests': 200, 'active_object_constructions': 100}
 ASSUME = ['fresh SingletonDecorator objects per run (same class as the module-level ones); module-level instances created at import are not re-raced']
 ANNOUNCE_CASES = True
